@@ -37,7 +37,11 @@ func c12Cases(tier string) []Case {
 		maxLen = 5
 	}
 	for _, t := range []string{"monetary", "number", "portion", "account", "asset", "string"} {
-		for n := 0; n <= maxLen; n++ {
+		top := maxLen
+		if t == "portion" && tier != "thorough" {
+			top = 4 // "1/00", "1.5%" need four bytes
+		}
+		for n := 0; n <= top; n++ {
 			script := "vars {\n  " + t + " $x\n}\nset_tx_meta(\"k\", $x)"
 			cases = append(cases, Case{ID: fmt.Sprintf("C12 vartext %s len=%d", t, n), Pkg: "", Fn: "ZZC12Var", Args: []string{script, "x", fmt.Sprint(n), types[t]}, Tag: "variable-text"})
 		}
